@@ -190,17 +190,22 @@ def scribble(observation):
         observation["scribbled_by_the_caller"] = 1
 
 
-def run_history(world, hist, reject=None):
+def run_history(world, hist, reject=None, late=None):
     """reject = [position, variant]: a rejected observer construction attempted before that dispatch (or at the
-    end of the history when position == len(hist))"""
+    end of the history when position == len(hist)); late = [position, steps]: observers constructed at that
+    point of the history (mid-episode) instead of on the fresh dispatcher"""
     outs = []
     for i, (j, p, m) in enumerate(hist):
         if reject and reject[0] == i:
             world.try_rejected(reject[1])
+        if late and late[0] == i:
+            world.build(late[1])
         r = world.do(j, p, m)
         outs.append([r, world.state()])
     if reject and reject[0] >= len(hist):
         world.try_rejected(reject[1])
+    if late and late[0] >= len(hist):
+        world.build(late[1])
     return outs
 
 
@@ -406,6 +411,26 @@ class C12(Check):
                 ep = rng.randrange(n_ep)
                 cases[-1]["reject"] = [ep, rng.randint(0, len(hs[ep])), rng.randrange(4)]
                 self.note("rejected_observer_construction_before_the_reset")
+            if env is None and "reject" not in cases[-1] and rng.random() < 0.25:
+                # some observers are constructed in the middle of an episode (attached to a dispatcher with a
+                # past); after the reset they, too, must be what they are when constructed on a fresh dispatcher
+                if rng.random() < 0.5:
+                    # nothing on the fresh dispatcher brings an UnscheduledOperationsObserver along (remaining-
+                    # operations / is-completed observers and the residual updater create-or-get one), so that the
+                    # one constructed mid-episode really is constructed on a dispatcher with a past
+                    steps = [st for st in steps if st[0] in ("hist", "mk", "idle", "cgu")
+                             or (st[0] == "feat" and st[1] not in (5, 6))]
+                    cases[-1]["steps"] = steps
+                have = {st[0] for st in steps}
+                pool = [[k] for k in ("unsched", "hist", "mk", "idle") if k not in have]
+                pool += [["feat", k, sorted(rng.sample(SUPPORTED[k], rng.randint(1, len(SUPPORTED[k]))))]
+                         for k in (0, 2, 3, 4, 5, 6)]
+                ep = rng.randrange(n_ep)
+                chosen = rng.sample(pool, rng.randint(1, min(3, len(pool))))
+                if "unsched" not in have and ["unsched"] not in chosen and rng.random() < 0.6:
+                    chosen.insert(0, ["unsched"])
+                cases[-1]["late"] = [ep, rng.randint(0, len(hs[ep])), chosen]
+                self.note("observers_constructed_mid_episode_before_the_reset")
             self.note("cases")
             self.note("episodes_before", n_ep)
             for st in steps:
@@ -433,16 +458,22 @@ class C12(Check):
                 # EarliestStartTimeObserver cannot be built for this instance: property C11's finding, not C12's
                 return {"skipped": "earliest-start observer not constructible"}
             raise
-        view = TieView(a, case["steps"]) if case["env"] is None else None
+        late = case.get("late")
+        # (observers constructed mid-episode: the model sessions construct on the fresh dispatcher only, so these
+        # cases are judged by the twin oracle alone)
+        view = TieView(a, case["steps"]) if case["env"] is None and not late else None
         snaps = [view.snap()] if view else []          # after the creation script
         for ep, h in enumerate(case["h1"]):
             rej = case.get("reject")
-            run_history(a, h, rej[1:] if rej and rej[0] == ep else None)
+            run_history(a, h, rej[1:] if rej and rej[0] == ep else None,
+                        late[1:] if late and late[0] == ep else None)
             ra = a.reset()
             if view:
                 snaps.append(view.snap())               # after every reset
         sa0 = a.state()
         b = World(case["spec"], case["filters"], case["steps"], case["env"])
+        if late:
+            b.build(late[2])        # the twin constructs them on the fresh dispatcher, after the others
         rb = b.reset() if case["env"] is not None else None
         sb0 = b.state()
         if case["env"] is None:
@@ -584,7 +615,7 @@ class C12(Check):
         if "tie" in obs:
             fails += self.judge_tie(case, obs, outs)
         else:
-            self.note("tie_skipped_env")
+            self.note("tie_skipped_env" if case["env"] is not None else "tie_skipped_observers_created_mid_episode")
         if obs["reset_obs"][0] != obs["reset_obs"][1]:
             fails.append(Failure("oracle", "env-reset-observation",
                                  "env.reset() after an episode returns a different observation than env.reset() of a "
@@ -615,7 +646,11 @@ class C12(Check):
     def shrink_candidates(self, case):
         if case.get("reject"):
             yield {k: v for k, v in case.items() if k != "reject"}
-        if len(case["h1"]) > 1:
+        late = case.get("late")
+        if late and len(late[2]) > 1:
+            for i in range(len(late[2])):
+                yield dict(case, late=[late[0], late[1], late[2][:i] + late[2][i + 1:]])
+        if len(case["h1"]) > 1 and not (late and late[0] >= 1) and not (case.get("reject") and case["reject"][0] >= 1):
             yield dict(case, h1=case["h1"][:1])
         if case["h2"]:
             yield dict(case, h2=case["h2"][:-1])
